@@ -27,7 +27,7 @@ sys.path.insert(0, os.path.join(VERIF, "gen"))
 import gen_t_c07  # noqa: E402
 
 PROP = "C07"
-TABLES = ["C07_Bindings"]
+TABLES = ["C07_Bindings", "Whitespace"]
 MODELS = [("c07", "Extract/ExC07.v", "run_C07")]
 
 GROUP_ROLES = {1: "self-insert", 2: "backward-delete-char", 3: "delete-char", 6: "vi-multicursor-insert"}
@@ -100,7 +100,12 @@ def oracle_groups(events):
     # binding (is_repeat only looks at the previous DISPATCH).  Runs are
     # therefore delimited on the key events alone, and a run with a redo()
     # call inside it is not judged.
-    keyed = [(p, e) for p, e in enumerate(events) if e["kind"] == "key"]
+    # A cursor position report is an answer from the terminal, not a command: it
+    # neither ends a run nor excuses it ("a run of consecutive character
+    # insertions" stays one run whatever the terminal says in between).
+    def is_report(e):
+        return e["kind"] == "cpr" or (e["kind"] == "key" and e["role"] == 7)
+    keyed = [(p, e) for p, e in enumerate(events) if e["kind"] == "key" and not is_report(e)]
     n = len(keyed)
     i = 0
     while i < n:
@@ -114,10 +119,10 @@ def oracle_groups(events):
         pos_j = keyed[j][0]
         pre, post = e["pre"], keyed[j][1]["post"]
         k = pos_j + 1
-        while (k < len(events) and events[k]["kind"] == "key" and not events[k]["undos"]
-               and events[k]["post"][0] == events[k]["pre"][0] and events[k]["role"] not in GROUP_ROLES):
+        while (k < len(events) and (is_report(events[k]) or (events[k]["kind"] == "key" and not events[k]["undos"]
+               and events[k]["post"][0] == events[k]["pre"][0] and events[k]["role"] not in GROUP_ROLES))):
             k += 1
-        clean = all(events[q]["kind"] == "key" for q in range(pos_i, pos_j + 1))
+        clean = all(events[q]["kind"] == "key" or is_report(events[q]) for q in range(pos_i, pos_j + 1))
         if clean and k < len(events) and events[k]["kind"] == "key" and events[k]["undos"] and post[0] != pre[0]:
             landed = events[k]["undos"][0][1]
             checked += 1
@@ -236,8 +241,12 @@ EMACS_TOKENS = {
     "paste": _tok(("Keys.BracketedPaste", "p1\r\np2")), "M-<": _tok("Keys.Escape", "<"), "M->": _tok("Keys.Escape", ">"),
     "undo": _tok(("Keys.ControlUnderscore", "\x1f")), "undo2": _tok("Keys.ControlX", "Keys.ControlU"),
     "c-d": _tok("Keys.ControlD"),
+    # a cursor position report from the terminal; alone, and in the middle of a two-key sequence
+    "cpr": _tok(("Keys.CPRResponse", "\x1b[5;1R")),
+    "M-b/cpr": _tok("Keys.Escape", ("Keys.CPRResponse", "\x1b[7;3R"), "b"),
+    "M-d/cpr": _tok("Keys.Escape", ("Keys.CPRResponse", "\x1b[7;3R"), "d"),
 }
-EMACS_WEIGHTS = {"a": 8, "b": 6, "sp": 4, "bs": 6, "del": 3, "undo": 7, "undo2": 2, "left": 3, "right": 2, "c-w": 2, "enter": 2}
+EMACS_WEIGHTS = {"cpr": 5, "a": 8, "b": 6, "sp": 4, "bs": 6, "del": 3, "undo": 7, "undo2": 2, "left": 3, "right": 2, "c-w": 2, "enter": 2}
 
 VI_TOKENS = {
     "a": _tok("a"), "b": _tok("b"), "sp": _tok(" "), "X": _tok("X"), "wide": _tok("界"), "x": _tok("x"),
@@ -253,8 +262,10 @@ VI_TOKENS = {
     "paste": _tok(("Keys.BracketedPaste", "p1\np2")), "gg": _tok("g", "g"), "G": _tok("G"),
     # block selection downwards, insert at multiple cursors, type (the one real if_no_repeat binding)
     "multi": _tok("Keys.Escape", "g", "g", "0", "Keys.ControlV", "j", "I"),
+    "cpr": _tok(("Keys.CPRResponse", "\x1b[5;1R")),
+    "d/cpr/w": _tok("d", ("Keys.CPRResponse", "\x1b[2;9R"), "w"),
 }
-VI_WEIGHTS = {"a": 8, "b": 6, "x": 5, "esc": 8, "u": 10, "i": 4, "bs": 4, "o": 3, "multi": 2, "A": 3, "sp": 3, "3": 1, "2": 1}
+VI_WEIGHTS = {"cpr": 5, "a": 8, "b": 6, "x": 5, "esc": 8, "u": 10, "i": 4, "bs": 4, "o": 3, "multi": 2, "A": 3, "sp": 3, "3": 1, "2": 1}
 
 
 class Sess:
@@ -342,7 +353,7 @@ class Sess:
                 self._rows[id(handler)] = gen_t_c07.row_of(handler)
             row, keys, name = self._rows[id(handler)]
             rec = {"kind": "key", "h": idx, "row": row, "name": name, "keys": keys, "binding_id": id(handler),
-                   "role": row[2], "saves": 0, "undos": [], "pre": self.state(), "binding": handler}
+                   "role": row[2], "saves": 0, "undos": [], "pre": self.state(), "binding": handler, "nav": False}
             self.cur = rec
             try:
                 o_call(handler, key_sequence)
@@ -353,7 +364,28 @@ class Sess:
             rec["rstack"] = list(buf._redo_stack)
             self.events.append(rec)
 
+        o_cpr, o_fix = kp._handle_cpr_response, kp._fix_vi_cursor_position
+
+        def handle_cpr(key_press):
+            # process_keys delivers a report here, outside _call_handler
+            pre = self.state()
+            was = self.cur
+            self.cur = {"saves": 0, "undos": [], "pre": pre, "in_cpr": True}
+            try:
+                o_cpr(key_press)
+            finally:
+                inner, self.cur = self.cur, was
+            self.events.append({"kind": "cpr", "pre": pre, "post": self.state(), "saves": inner["saves"], "undos": inner["undos"],
+                                "ustack": list(buf._undo_stack), "rstack": list(buf._redo_stack)})
+
+        def fix(event):
+            from prompt_toolkit.filters import vi_navigation_mode
+            if self.cur is not None:
+                self.cur["nav"] = bool(vi_navigation_mode())
+            return o_fix(event)
+
         buf.save_to_undo_stack, buf.undo, buf.redo, kp._call_handler = save, undo, redo, call
+        kp._handle_cpr_response, kp._fix_vi_cursor_position = handle_cpr, fix
         self._o_redo = o_redo
 
     def feed(self, token):
@@ -480,7 +512,18 @@ def key_case_to_model(res):
             out.append([0, [0, S(e["post"][0]), e["post"][1], stack_sx(e["ustack"]), stack_sx(e["rstack"])]])
             atoms.append({"kind": "redo", "pre": e["pre"], "post": e["post"], "redo_len_after": len(e["rstack"])})
             continue
-        evs.append([1, e["h"], len(e["undos"]), S(e["post"][0]), e["post"][1]])
+        if e["kind"] == "cpr" or e["role"] == 7:
+            # a terminal report, however the key processor chose to deliver it: the model's Cpr event
+            evs.append([4])
+            out.append([1 if e["saves"] else 0, [0, S(e["post"][0]), e["post"][1], stack_sx(e["ustack"]), stack_sx(e["rstack"])]])
+            atoms.append({"kind": "cmd", "pre": e["pre"], "post": e["post"], "redo_len_after": len(e["rstack"]),
+                          "edit": False, "saved": bool(e["saves"])})
+            continue
+        if e["row"][1] == 1:
+            # an undo key: the model computes the whole effect (n undo() calls + Vi cursor fix-up)
+            evs.append([3, e["h"], len(e["undos"]), 1 if e.get("nav") else 0])
+        else:
+            evs.append([1, e["h"], len(e["undos"]), S(e["post"][0]), e["post"][1]])
         out.append([1 if e["saves"] else 0, [0, S(e["post"][0]), e["post"][1], stack_sx(e["ustack"]), stack_sx(e["rstack"])]])
         if e["undos"]:
             if e["saves"]:
@@ -528,6 +571,13 @@ def key_specs(chk):
         ("emacs", "", 0, ["a", "sp", "b", "c-w", "undo", "!redo", "a", "!redo"]),
         ("emacs", "abc", 0, ["del", "del", "undo", "!redo", "undo"]),
         ("emacs", "x", 1, ["M-3", "a", "undo2", "undo2"]),
+        # terminal reports arriving between the keys of a run / inside a key sequence
+        ("emacs", "", 0, ["a", "b", "cpr", "a", "b", "undo"]),
+        ("emacs", "hello!", 5, ["bs", "cpr", "bs", "cpr", "cpr", "bs", "undo", "undo"]),
+        ("emacs", "one two", 0, ["del", "cpr", "del", "M-d/cpr", "cpr", "undo", "undo", "!redo"]),
+        ("vi", "", 0, ["a", "b", "cpr", "a", "b", "esc", "cpr", "u"]),
+        ("vi", "ab\ncd\nef", 0, ["multi", "a", "cpr", "b", "cpr", "a", "esc", "u", "cpr", "u"]),
+        ("vi", "one two three", 0, ["esc", "d/cpr/w", "x", "cpr", "u", "cpr", "u", "!redo"]),
         ("emacs", "", 0, ["a", "sp", "b", "sp", "c-w", "undo", "undo", "undo", "!redo", "!redo", "!redo", "undo", "!redo"]),
         ("vi", "one two three", 0, ["esc", "x", "w", "x", "w", "x", "u", "u", "u", "!redo", "!redo", "!redo", "u", "u"]),
         # two bindings sharing one handler function (delete-char): is_repeat is per binding
@@ -657,6 +707,12 @@ def main(tier):
             if e["kind"] == "redo":
                 kstats["direct_redos"] += 1
                 continue
+            if e["kind"] == "cpr":
+                kstats["reports_delivered"] = kstats.get("reports_delivered", 0) + 1
+                continue
+            if e["role"] == 7:
+                chk.violation("tie", "a cursor position report was dispatched through _call_handler (process_keys must hand it to _handle_cpr_response)",
+                              {"kind": "cpr-through-call-handler"}, {"spec": spec}, no_input=True)
             kstats["dispatches"] += 1
             kstats["handlers"][e["name"]] = kstats["handlers"].get(e["name"], 0) + 1
             kstats["undo_calls"] += len(e["undos"])
@@ -679,8 +735,10 @@ def main(tier):
             e = res["events"][a]
             oracle_bad.add(i)
             cause = group_cause(e["binding"], e["row"])
-            chk.violation("oracle", "a run of %d %s dispatches (%r -> %r) was not undone as one group: one undo gave %r [%s]" % (
-                b - a + 1, GROUP_ROLES[e["role"]], pre, post, landed, how[:200]),
+            nkeys = sum(1 for q in range(a, b + 1) if res["events"][q]["kind"] == "key" and res["events"][q]["role"] != 7)
+            nrep = (b - a + 1) - nkeys
+            chk.violation("oracle", "a run of %d %s dispatches%s (%r -> %r) was not undone as one group: one undo gave %r [%s]" % (
+                nkeys, GROUP_ROLES[e["role"]], (" with %d terminal report(s) in between" % nrep) if nrep else "", pre, post, landed, how[:200]),
                 {"clause": "group", "cause": cause},
                 {"case": sx_norm(case), "spec": spec, "run": [a, b], "undo_event": k, "pre": pre, "post": post, "landed": landed,
                  "binding": "%s -> %s" % (e["keys"], e["name"]), "how": how})
@@ -811,6 +869,8 @@ def replay(data):
         for e in res["events"]:
             if e["kind"] == "redo":
                 print("  Buffer.redo(): %r -> %r" % (e["pre"], e["post"]))
+            elif e["kind"] == "cpr":
+                print("  <cursor position report> via _handle_cpr_response: %r -> %r" % (e["pre"], e["post"]))
             else:
                 print("  %-14s %-50s save=%d undo_calls=%d: %r -> %r  undo_stack=%r redo_stack=%r" % (
                     e["keys"], e["name"][-50:], e["saves"], len(e["undos"]), e["pre"], e["post"], e["ustack"], e["rstack"]))
